@@ -613,6 +613,26 @@ func genAmqpConv(r *Rand, tier string, emit func(sx.Sx)) {
 		emit(sx.L(half("c", []sx.Sx{mf(1, m)}), half("s", nil)))
 		emit(sx.L(half("c", nil), half("s", []sx.Sx{mf(1, m)})))
 	}
+	// field tables and arrays nested deeply (AMQP 0-9-1 sets no limit): the arguments are reported, the frames after go on
+	{
+		declare := func(ch int, table sx.Sx) sx.Sx {
+			return sx.L(sx.A("m"), sx.N(ch), sx.N(50), sx.N(10), sx.L(sx.L(sx.A("s"), sx.N(0)), sx.L(sx.A("ss"), sx.S("q")),
+				sx.L(sx.A("bits"), sx.A("false"), sx.A("true"), sx.A("false"), sx.A("false"), sx.A("false")), sx.L(sx.A("t"), table)))
+		}
+		declareOk := func(ch int) sx.Sx {
+			return sx.L(sx.A("m"), sx.N(ch), sx.N(50), sx.N(11), sx.L(sx.L(sx.A("ss"), sx.S("q")), sx.L(sx.A("l"), sx.N(0)), sx.L(sx.A("l"), sx.N(0))))
+		}
+		for _, depth := range []int{2, 31, 32, 33, 40, 100} {
+			tbl := sx.L(sx.L(sx.S("leaf"), sx.L(sx.A("I"), sx.I(1))))
+			arr := sx.L(sx.A("A"), sx.L(sx.A("I"), sx.I(1)))
+			for i := 0; i < depth; i++ {
+				tbl = sx.L(sx.L(sx.S("n"), sx.L(sx.A("F"), tbl)))
+				arr = sx.L(sx.A("A"), arr)
+			}
+			emit(sx.L(half("c", []sx.Sx{declare(1, tbl), declare(2, sx.L())}), half("s", []sx.Sx{declareOk(1), declareOk(2)})))
+			emit(sx.L(half("c", []sx.Sx{declare(1, sx.L(sx.L(sx.S("a"), arr))), declare(2, sx.L())}), half("s", []sx.Sx{declareOk(1), declareOk(2)})))
+		}
+	}
 	// request / -ok pairs of the reported methods
 	pairs := [][4]int{{10, 40, 10, 41}, {20, 10, 20, 11}, {40, 10, 40, 11}, {50, 10, 50, 11}, {50, 20, 50, 21}, {60, 20, 60, 21}, {60, 30, 60, 31}, {10, 50, 10, 51}}
 	for _, p := range pairs {
